@@ -2,6 +2,8 @@ package rules
 
 import (
 	"go/token"
+	"go/types"
+	"sort"
 	"strings"
 
 	"golang.org/x/tools/go/ssa"
@@ -18,7 +20,7 @@ func init() {
 			"Node.signal forwards the signal only under status==running ∧ cmd!=nil and uses signalOnStop only under allowOverride ∧ configured (C05.signal-table)",
 			"typestate: the guard of Kill must stay satisfiable for the re-sent / escalated signal (C05.escalation) — violated today, known finding F12",
 			"Agent.signal escalates with the constant SIGKILL, allowOverride=false, on a timer derived from MaxCleanUpTime; /stop uses (SIGTERM, true); OS signals (sig,false) (C05.agent-escalation)",
-			"process executors that kill the negative pid are created with Setpgid:true (C05.pgroup)",
+			"the Kill of every process executor (executor holding an *exec.Cmd) returns nil only after the signal was sent, to the group -cmd.Process.Pid, helpers followed (C05.kill-delivers); those executors are created with Setpgid:true (C05.pgroup)",
 			"the context handed to exec derives from context.WithTimeout(ctx, sc.timeout) under timeout>0 and process executors use exec.CommandContext on it (C05.timeout-ctx)",
 			"cancel and exit handlers are selected (C04.handler-table shared)",
 		},
@@ -114,10 +116,10 @@ func c05SignalFanout(e *Env, s *Sched) {
 			n := ir.Normalize(ir.Lit{Cond: i.Cond, Pol: idx == 0})
 			return n.Kind == "val" && n.Pol && isCanceledCall(n.V) // already canceled
 		},
-		Bad: isSignalCall,
+		Bad: func(in ssa.Instruction) bool { return isSignalCall(in) || ir.IsReturn(in) },
 	})
 	r.Check(bad == nil, "Signal: canceled flag set before any node is signalled", e.Pos(fn.Pos()),
-		"nodes are signalled before the canceled flag is set: the scheduling loop can launch a new step after the fan-out passed it")
+		"a stop request can pass through Signal without the canceled flag being set first (flag set after the fan-out, or only under a further condition): the scheduling loop launches more steps and the run is not reported canceled")
 	// the fan-out loop
 	loops := ir.Loops(fn)
 	var fl *ir.Loop
@@ -432,28 +434,64 @@ func signalConst(v ssa.Value) int64 {
 
 func c05Pgroup(e *Env, s *Sched) {
 	r := e.R
-	r.Rule("C05.pgroup", "SIB/AGR", "negative-pid Kill ⇒ Setpgid:true at construction", 2)
 	sp := e.P.Pkg("internal/dag/executor")
 	if sp == nil {
+		r.Rule("C05.pgroup", "SIB/AGR", "process executors: group kill ⇒ Setpgid:true at construction", 2)
 		r.Unknown("package internal/dag/executor", "-", "not found")
 		return
 	}
+	// process executors by role: Kill methods whose receiver struct holds an *exec.Cmd
+	type pexec struct {
+		kill  *ssa.Function
+		recvT string
+	}
+	var pes []pexec
 	for _, f := range e.RepoFuncsSorted() {
 		if f.Package() != sp || f.Name() != "Kill" || f.Signature.Recv() == nil {
 			continue
 		}
-		neg := false
-		for _, ci := range ir.CallsIn(f, func(c *ssa.CallCommon) bool { return ir.IsCallTo(c, "syscall.Kill") }) {
-			if u, ok := ir.Resolve(ci.Common().Args[0]).(*ssa.UnOp); ok && u.Op == token.SUB {
-				neg = true
-			}
-		}
-		if !neg {
+		st, ok := derefStruct(f.Signature.Recv().Type())
+		if !ok {
 			continue
 		}
-		recvT := ir.NamedType(f.Signature.Recv().Type())
+		hasCmd := false
+		for i := 0; i < st.NumFields(); i++ {
+			if pt, ok := st.Field(i).Type().(*types.Pointer); ok && ir.NamedType(pt.Elem()) == "os/exec.Cmd" {
+				hasCmd = true
+			}
+		}
+		if hasCmd {
+			pes = append(pes, pexec{f, ir.NamedType(f.Signature.Recv().Type())})
+		}
+	}
+
+	r.Rule("C05.kill-delivers", "MPT (interprocedural summary)+VF", "process executors: Kill signals the group -Process.Pid on every path that reports success", 2)
+	for _, pe := range pes {
+		f := pe.kill
+		kc := &killCheck{e: e, memo: map[*ssa.Function]*killSum{}}
+		sum := kc.summary(f, true, 0)
+		short := strings.TrimPrefix(pe.recvT, sp.Pkg.Path()+".")
+		pos := e.Pos(f.Pos())
+		if sum.badRet != nil {
+			pos = e.InstrPos(sum.badRet)
+		}
+		r.Check(sum.must, "executor "+short+": Kill reports success only after the signal was sent (cmd/Process==nil excepted)", pos,
+			"Kill can return nil without having signalled the process group although the process was started: the step's processes are never stopped, while the node is already marked canceled and no later signal reaches them",
+			"kill calls found: "+strings.Join(kc.sites(), ", "))
+		if len(kc.kills) == 0 {
+			continue
+		}
+		for _, k := range kc.kills {
+			neg, why := kc.negPid(k.Common().Args[0], 0)
+			r.Check(neg, "executor "+short+": the signal goes to the process group -cmd.Process.Pid fixed at creation ["+shortCallee(k.Common())+" in "+ShortFn(k.Parent())+"]", e.InstrPos(k),
+				"the signalled id is not the negated pid of the started process ("+why+"): a positive pid reaches only the group leader (children of `sh -c` keep running and keep the step's pipes open); a group looked up at signal time fails once the leader has exited and been reaped although group members are alive")
+		}
+	}
+
+	r.Rule("C05.pgroup", "SIB/AGR", "process executors: group kill ⇒ Setpgid:true at construction", 2)
+	for _, pe := range pes {
 		// constructors: functions in the package that allocate this type
-		okAll, n := true, 0
+		n := 0
 		for _, g := range e.RepoFuncsSorted() {
 			if g.Package() != sp {
 				continue
@@ -461,7 +499,7 @@ func c05Pgroup(e *Env, s *Sched) {
 			allocs := false
 			for _, b := range g.Blocks {
 				for _, in := range b.Instrs {
-					if al, ok := in.(*ssa.Alloc); ok && al.Heap && ir.NamedType(al.Type()) == recvT {
+					if al, ok := in.(*ssa.Alloc); ok && al.Heap && ir.NamedType(al.Type()) == pe.recvT {
 						allocs = true
 					}
 				}
@@ -481,17 +519,214 @@ func c05Pgroup(e *Env, s *Sched) {
 					}
 				}
 			}
-			if !setpgid {
-				okAll = false
-			}
 			r.Check(setpgid, ShortFn(g)+": cmd.SysProcAttr{Setpgid:true} (Kill signals the process group)", e.Pos(g.Pos()),
 				"the executor kills -pid (the process group) but does not start the child in its own group: the signal goes nowhere or to the agent's own group")
 		}
 		if n == 0 {
-			r.Unknown("constructor of "+recvT, e.Pos(f.Pos()), "no constructor found")
+			r.Unknown("constructor of "+pe.recvT, e.Pos(pe.kill.Pos()), "no constructor found")
 		}
-		_ = okAll
 	}
+}
+
+// killSum is the per-function summary of the kill-delivers rule.
+type killSum struct {
+	must   bool            // every path to a possibly-nil return passes a kill
+	badRet ssa.Instruction // a return reached without
+}
+
+type killCheck struct {
+	e     *Env
+	memo  map[*ssa.Function]*killSum
+	kills []ssa.CallInstruction
+}
+
+func (kc *killCheck) sites() []string {
+	var out []string
+	for _, k := range kc.kills {
+		out = append(out, shortCallee(k.Common())+"@"+ShortFn(k.Parent()))
+	}
+	sort.Strings(out)
+	return out
+}
+
+func isOSKill(c *ssa.CallCommon) bool {
+	return ir.IsCallTo(c, "syscall.Kill", "(*os.Process).Signal", "(*os.Process).Kill", "golang.org/x/sys/unix.Kill")
+}
+
+// summary: top=true for the Kill method itself (the nothing-to-kill tests on
+// cmd / cmd.Process license an early nil return there).
+func (kc *killCheck) summary(f *ssa.Function, top bool, depth int) *killSum {
+	if s, ok := kc.memo[f]; ok {
+		return s
+	}
+	s := &killSum{}
+	kc.memo[f] = s // recursion: assume not-must
+	if f == nil || f.Blocks == nil || depth > 4 {
+		return s
+	}
+	e := kc.e
+	stop := func(in ssa.Instruction) bool {
+		ci, ok := in.(ssa.CallInstruction)
+		if !ok {
+			return false
+		}
+		if _, isDefer := in.(*ssa.Defer); isDefer {
+			return false
+		}
+		if _, isGo := in.(*ssa.Go); isGo {
+			return false
+		}
+		c := ci.Common()
+		if isOSKill(c) {
+			seen := false
+			for _, k := range kc.kills {
+				if k == ci {
+					seen = true
+				}
+			}
+			if !seen {
+				kc.kills = append(kc.kills, ci)
+			}
+			return true
+		}
+		if sc := c.StaticCallee(); sc != nil && e.P.Funcs[sc] && sc != f {
+			return kc.summary(sc, false, depth+1).must
+		}
+		return false
+	}
+	// collect kill sites even on paths the search does not need to walk
+	for _, b := range f.Blocks {
+		for _, in := range b.Instrs {
+			stop(in)
+		}
+	}
+	nres := f.Signature.Results().Len()
+	bad, _ := ir.Bypass(nil, f.Blocks[0], ir.PathQuery{
+		Stop: stop,
+		SkipEdge: func(from *ssa.BasicBlock, idx int) bool {
+			if !top {
+				return false
+			}
+			i, ok := from.Instrs[len(from.Instrs)-1].(*ssa.If)
+			if !ok {
+				return false
+			}
+			n := ir.Normalize(ir.Lit{Cond: i.Cond, Pol: idx == 0})
+			if n.Kind == "cmp" && n.Op == token.EQL && ir.IsNilConst(n.Y) {
+				if p, ok := e.C.PathOf(n.X); ok && (p.Suffix("cmd") || p.Suffix("Process")) && ir.Resolve(p.Root) == ssa.Value(f.Params[0]) {
+					return true // nothing was started: nothing to signal
+				}
+			}
+			return false
+		},
+		Bad: func(in ssa.Instruction) bool {
+			rt, ok := in.(*ssa.Return)
+			if !ok {
+				return false
+			}
+			if nres == 0 {
+				return true
+			}
+			last := nres - 1
+			if !ir.IsErrorType(f.Signature.Results().At(last).Type()) {
+				return true
+			}
+			for _, v := range RetVals(rt, last) {
+				v = ir.Resolve(v)
+				if ir.IsNilConst(v) {
+					return true
+				}
+				if c, ok := v.(*ssa.Call); ok && ir.IsCallTo(&c.Call, "fmt.Errorf", "errors.New") {
+					continue
+				}
+				if mi, ok := v.(*ssa.MakeInterface); ok && !ir.IsNilConst(mi.X) {
+					continue
+				}
+				if HasNilCmp(e.DCS(rt), func(x ssa.Value) bool { return ir.Resolve(x) == v }, true) {
+					continue
+				}
+				return true // possibly nil
+			}
+			return false
+		},
+	})
+	s.must = bad == nil
+	s.badRet = bad
+	return s
+}
+
+// negPid: v is the negation of the started process's pid (cmd.Process.Pid),
+// possibly handed down through parameters of repository helpers.
+func (kc *killCheck) negPid(v ssa.Value, depth int) (bool, string) {
+	e := kc.e
+	v = ir.Resolve(v)
+	if depth > 4 {
+		return false, "too deep"
+	}
+	switch x := v.(type) {
+	case *ssa.UnOp:
+		if x.Op == token.SUB {
+			return kc.isPid(x.X, depth)
+		}
+	case *ssa.Convert:
+		return kc.negPid(x.X, depth)
+	case *ssa.Parameter:
+		sites := e.StaticCallSites(x.Parent())
+		if len(sites) == 0 {
+			return false, "parameter " + x.Name() + " of a function without static callers"
+		}
+		idx := paramIndex(x)
+		for _, ci := range sites {
+			if idx < 0 || idx >= len(ci.Common().Args) {
+				return false, "call site arity"
+			}
+			if ok, why := kc.negPid(ci.Common().Args[idx], depth+1); !ok {
+				return false, why
+			}
+		}
+		return true, ""
+	}
+	if ok, _ := kc.isPid(v, depth); ok {
+		return false, "the pid is not negated"
+	}
+	return false, "derived from " + e.C.Render(v)
+}
+
+func (kc *killCheck) isPid(v ssa.Value, depth int) (bool, string) {
+	e := kc.e
+	v = ir.Resolve(v)
+	switch x := v.(type) {
+	case *ssa.Convert:
+		return kc.isPid(x.X, depth)
+	case *ssa.Parameter:
+		sites := e.StaticCallSites(x.Parent())
+		if len(sites) == 0 || depth > 4 {
+			return false, "parameter " + x.Name()
+		}
+		idx := paramIndex(x)
+		for _, ci := range sites {
+			if idx < 0 || idx >= len(ci.Common().Args) {
+				return false, "call site arity"
+			}
+			if ok, why := kc.isPid(ci.Common().Args[idx], depth+1); !ok {
+				return false, why
+			}
+		}
+		return true, ""
+	}
+	if e.IsFieldRead(v, nil, "Process.Pid") {
+		return true, ""
+	}
+	return false, "derived from " + e.C.Render(v)
+}
+
+func paramIndex(p *ssa.Parameter) int {
+	for i, q := range p.Parent().Params {
+		if q == p {
+			return i
+		}
+	}
+	return -1
 }
 
 func c05TimeoutCtx(e *Env, s *Sched) {
